@@ -71,13 +71,17 @@ def load_known():
 # ----------------------------------------------------------------------------------------------
 # reflective-checker properties (C08, C07, C05): shared flow
 # ----------------------------------------------------------------------------------------------
-def reflective(prop, tier, seed, oracle_module, level_note, extra_obligations=None, ncorr=None, oracle_args=None, gprops=True, seq_obligations=None, theorems=None, theory_obligations=None, gprops_from=None):
+def reflective(prop, tier, seed, oracle_module, level_note, extra_obligations=None, ncorr=None, oracle_args=None, gprops=True, seq_obligations=None, theorems=None, theory_obligations=None, gprops_from=None, pre_cmds=None):
     t0 = time.time()
     problems = []       # broken obligations / correspondences (strings)
     with coqbuild.Lock():
         ok, gen_out = regenerate()
         if not ok:
             problems.append('translator: ' + gen_out[-1500:])
+        for pc in (pre_cmds or []):
+            pp = run(pc)
+            if pp.returncode != 0:
+                problems.append('front-end %s: %s' % (os.path.basename(pc[1]), (pp.stdout + pp.stderr).strip()[-1200:]))
         if gprops:
             p = run(['python3', os.path.join(HERE, 'mkprops.py'), prop])
             if p.returncode != 0:
@@ -321,13 +325,55 @@ def check_C19(tier, seed):
                       theorems=['C08_calculate_shear_sym', 'C08_calculate_shear_nonsym', 'C07_M_calculate_shear_sym', 'C07_T_calculate_shear_sym', 'C07_M_calculate_shear_nonsym'])
 
 
+def check_C03(tier, seed):
+    return reflective('C03', tier, seed, 'oracle_C03',
+                      'Proved on the program regenerated from init_axis (axis jets = its inputs), for every index type: right-handed orthonormal frame, tangent = (dr/dphi)/(dl/dphi) '
+                      'with positive phi-component, curvature >= 0, X1c = etabar/curvature, G0 = sG*B0*L/(2 pi), d_varphi_d_phi proportional to d_l_d_phi; in the CONTINUUM model '
+                      '(d/dphi a derivation, jets consistent, rotating cylindrical basis) all three Frenet-Serret equations with the code\'s curvature and torsion; on the discrete grid '
+                      '(every n) varphi[0] = 0, strictly increasing, closing one field period, from the recorded trapezoid recurrence; elongation^2 = s1^2/s2^2 (singular values) and >= 1. '
+                      'Hypotheses: R0 > 0, non-vanishing curvature, the harmonic sums R0.. are the derivatives of each other (jets_consistent; term-by-term check by the harness). '
+                      'NOT proved: quadrature error rate; min_R0 / max_elongation (spectral-minimum oracle).',
+                      gprops=False, seq_obligations=['props/C03_spec.v', 'props/C03.v'], ncorr=(8 if tier == 'quick' else 48),
+                      theorems=['C03_T1', 'C03_frenet_serret', 'C03_T3', 'C03_varphi', 'C03_elongation_h0', 'C03_elongation_hN'])
+
+
+def check_C17(tier, seed):
+    return reflective('C17', tier, seed, 'oracle_C17',
+                      'A read-only effect checker is proved sound in Coq (theories/Effects.v, axiom-free: if the checker accepts a sequence of method calls then every '
+                      'protected attribute still refers to the same object and that object (and anything sharing memory with it) is unmodified, for every heap and every execution). '
+                      'tools/gen_eff.py abstracts the CURRENT sources of the 19 entry points and the 10 helpers they reach into the effect IR (flow-insensitive may-alias; fail-closed) '
+                      'and the checker is run by vm_compute on that IR for all entry points twice in both orders, plus a closure check that the tainted set is stable under any further call. '
+                      'Protected = every attribute of a constructed r3 object except the four that calculate_grad_grad_B_tensor legitimately recomputes (value identity of those is checked dynamically). '
+                      'Trusted: the front-end (validated each run: observed writes and memory sharing must be within its prediction) and its purity summaries for numpy / scipy / matplotlib. '
+                      'to_vmec writes default-valued keys into its mutable default dict (recorded, not protected state).',
+                      gprops=False, extra_obligations=['gprops/C17_check.v'], theory_obligations=['Effects'],
+                      pre_cmds=[[PY, os.path.join(HERE, 'gen_eff.py'), '--repo', REPO]], ncorr=(5 if tier == 'quick' else 12),
+                      theorems=['Effects.check_method_sound', 'Effects.readonly_sequence_sound', 'Effects.accepts_sound', 'C17_accepts', 'C17_closed', 'C17_protected_unchanged'])
+
+
+def check_C16(tier, seed):
+    return reflective('C16', tier, seed, 'oracle_C16',
+                      'Proved (theories/ObjModel.v, axiom-free, for every value type, every calculate function and EVERY finite history of set_dofs / change_nfourier / calculate / get_dofs): '
+                      'names and DOFs have length 4*nfourier+7 in the advertised order with distinct names, set_dofs(get_dofs()) leaves the parameters unchanged, get_dofs after set_dofs(x) is x, '
+                      'and after any history the whole state equals a fresh construction from the current parameters -- exactly when calculate is invariant under zero-padding of the '
+                      'coefficient arrays (hypothesis calc_pad, shown necessary and sufficient; validated numerically on every history). tools/gen_obj.py extracts the slice layout, name order, '
+                      'resize sources, recalculation condition, constructor checks and the preset table from the CURRENT sources and Coq checks by computation that they equal what the model assumes '
+                      '(gprops/C16_layout.v), that no object attribute aliases a caller array after any order of mutators (verified effect checker), and the preset facts '
+                      '(advertised names accepted, else raises ValueError, defaults only if missing, branches disjoint). The model is also replayed inside Coq on every generated history and '
+                      'compared with the real object. Known finding: 12 accepted-but-unadvertised names.',
+                      gprops=False, extra_obligations=['gprops/C16_layout.v', 'gprops/C16_presets.v'], theory_obligations=['ObjModel', 'Effects'],
+                      pre_cmds=[[PY, os.path.join(HERE, 'gen_obj.py'), '--repo', REPO]],
+                      theorems=['ObjModel.wf_preserved', 'ObjModel.names_dofs_aligned', 'ObjModel.set_get_id', 'ObjModel.get_set_id', 'ObjModel.history_fresh',
+                                'ObjModel.calc_pad_necessary', 'C16_layout.no_caller_alias_any_order', 'C16_presets.advertised_accepted', 'C16_presets.defaults_only_if_missing'])
+
+
 # hand-written theories each check depends on (others are not built, so work in progress elsewhere cannot disturb it)
 NEEDS = {
     'C08': ['Expr', 'Equiv', 'Dim'], 'C07': ['Expr', 'Equiv', 'Sign'], 'C05': ['Expr', 'Equiv', 'Shift'],
-    'C04': ['Expr', 'Shallow'], 'C11': ['Expr', 'Shallow'], 'C13': ['Expr', 'Shallow', 'Quadrant'], 'C19': ['Expr', 'Equiv', 'Dim', 'Sign'], 'C09': ['Expr', 'Shallow'], 'C03': ['Expr', 'Shallow'], 'C10': ['Expr', 'Shallow'], 'C01': ['Expr', 'Shallow', 'Series'], 'C02': ['Expr', 'Shallow', 'Newton'],
+    'C04': ['Expr', 'Shallow'], 'C11': ['Expr', 'Shallow'], 'C13': ['Expr', 'Shallow', 'Quadrant'], 'C19': ['Expr', 'Equiv', 'Dim', 'Sign'], 'C17': ['Expr', 'Effects'], 'C16': ['Expr', 'Effects', 'ObjModel'], 'C09': ['Expr', 'Shallow'], 'C03': ['Expr', 'Shallow'], 'C10': ['Expr', 'Shallow'], 'C01': ['Expr', 'Shallow', 'Series'], 'C02': ['Expr', 'Shallow', 'Newton'],
     'C20': ['Expr', 'Equiv', 'Sign', 'Shift', 'DiffMat', 'Newton', 'Bracket'],
 }
-CHECKS = {'C19': check_C19, 'C09': check_C09, 'C13': check_C13, 'C11': check_C11, 'C02': check_C02, 'C20': check_C20, 'C04': check_C04, 'C08': check_C08, 'C07': check_C07, 'C05': check_C05}
+CHECKS = {'C16': check_C16, 'C17': check_C17, 'C03': check_C03, 'C19': check_C19, 'C09': check_C09, 'C13': check_C13, 'C11': check_C11, 'C02': check_C02, 'C20': check_C20, 'C04': check_C04, 'C08': check_C08, 'C07': check_C07, 'C05': check_C05}
 
 
 def main():
@@ -339,7 +385,7 @@ def main():
     seed = int(os.environ.get('VERIF_SEED', '20240930'))
     if a.replay:
         rep = json.load(open(a.replay))
-        mod = {'C08': 'oracle_C08', 'C07': 'oracle_sym', 'C05': 'oracle_sym', 'C04': 'oracle_C04', 'C02': 'oracle_C02', 'C20': 'kernels', 'C11': 'oracle_C11', 'C13': 'oracle_C13', 'C09': 'oracle_C09', 'C19': 'oracle_C19'}.get(a.prop)
+        mod = {'C08': 'oracle_C08', 'C07': 'oracle_sym', 'C05': 'oracle_sym', 'C04': 'oracle_C04', 'C02': 'oracle_C02', 'C20': 'kernels', 'C11': 'oracle_C11', 'C13': 'oracle_C13', 'C09': 'oracle_C09', 'C19': 'oracle_C19', 'C03': 'oracle_C03', 'C17': 'oracle_C17', 'C16': 'oracle_C16'}.get(a.prop)
         res = harness(mod, (['--prop', a.prop] if mod == 'oracle_sym' else []) + ['--mode', 'replay', '--file', a.replay])
         print(json.dumps(res, indent=1))
         return 1 if res.get('violations') else 0
